@@ -3,7 +3,9 @@ from .pdb import strip, walk, loc, ancestors
 from .terms import Ctx, num, show, lin_add
 from .common import (P, F, effects, callee_path, call_args, rule_index_kinds, rule_no_unsafe, rule_freeze, receiver_mode, find_argmax,
                      reachable_fns, facts_x, in_macro, is_zero_term, _resolve, loop_var_ranges)
-from .guards import for_range, facts
+from .guards import facts
+from .guards import for_range as raw_for_range
+from .common import for_range_total as for_range
 
 LEVEL = "other"
 M = "matrix::Matrix<T>"
@@ -79,6 +81,13 @@ def run(rep, pdb, tier):
             g = nonzero_fact(fs, am.best)
             rep.add("zero-pivot/lu_decomp_in_place", rule, g, e.node,
                     "division by %s: guard `%s != zero` dominates=%s" % (show(e.value, ctx), show(am.best, ctx), g))
+    # the pivot search feeding the exchange counter and the zero-pivot test: an arg-max over magnitudes whose
+    # accumulators are re-initialised for every column
+    from .c01 import check_argmax
+    outer0 = [n for n in walk(lu["body"]) if n.get("k") == "For"][0]
+    from .guards import for_range as _raw
+    r0 = _raw(ctx, outer0)
+    check_argmax(rep, pdb, lu, "pivot-search", r0[0], ROWS, 1, lambda c: r0[0])
     # other divisions reachable from determinant (none expected besides lu's)
     seen, _ = reachable_fns(pdb, det)
     others = []
